@@ -5,7 +5,8 @@
    computes alone (Proofs/ConcProofs.v). *)
 From Coq Require Import List Arith Bool Lia.
 From Soy Require Import Model.Bytes Model.Values Model.Outcome Model.Ast Model.Interp Model.JsGen Generated.JsGenTrace
-  Model.Conc Model.ConcRender Model.ConcJs Proofs.ConcProofs Proofs.PurityProofs Proofs.ConcRenderProofs.
+  Model.Conc Model.ConcRender Model.ConcJs Proofs.ConcProofs Proofs.PurityProofs Proofs.ConcRenderProofs
+  Proofs.ConcJsSimBase Generated.JsGenSim.
 Import ListNotations.
 Open Scope N_scope.
 
@@ -66,11 +67,26 @@ Qed.
 
 (* ---------------- JavaScript generation ---------------- *)
 
+(* the lens of the traced generator is lawful *)
+Lemma c09_tlens_ok : jlens_ok c09_tlens.
+Proof. split; intros; reflexivity. Qed.
+
+(* THE TRACED GENERATOR IS THE MODEL: for every options, fuel and file its result is gen_file's
+   (Generated/JsGenSim.v: one simulation lemma per definition of Model/JsGen.v, regenerated with it) *)
+Theorem gen_file_traced_result o fuel name body :
+  fst (gen_file_traced o fuel name body) = JsGen.gen_file o fuel name body.
+Proof.
+  unfold gen_file_traced.
+  rewrite <- (gen_file_sim c09_tlens c09_tlens_ok o (JsGen.jinit_state, []) fuel name body).
+  destruct (JT.gen_file c09_tlens o (jinit_state, []) fuel name body) as [r s]. reflexivity.
+Qed.
+
 (* THE ACCESSES OF THE GENERATOR: every entry of the traced generator's log is a look at a node of
-   the syntax tree or an access to the generator's own record -- for every options, fuel and file *)
-Lemma jsgen_log_no_shared_write o fuel name body t :
-  snd (gen_file_traced o fuel name body) = Some t -> Forall (fun a => jacc_shared_write a = false) t.
-Proof. intros _. apply Forall_forall. intros [p| |] _; reflexivity. Qed.
+   the syntax tree or an access to the generator's own record -- for every options, fuel and file,
+   whether the generation succeeds or fails *)
+Lemma jsgen_log_no_shared_write o fuel name body :
+  Forall (fun a => jacc_shared_write a = false) (snd (gen_file_traced o fuel name body)).
+Proof. apply Forall_forall. intros [p| |] _; reflexivity. Qed.
 
 Lemma replay_disciplined i (k : cprog) :
   (forall s, disciplined rloc_eqb rowner i k s) -> forall t s, disciplined rloc_eqb rowner i (replay i t k) s.
@@ -115,6 +131,12 @@ Proof.
   unfold cjsgen_fine_prog, js_fine_on. rewrite !solo_result_read.
   destruct (s LFiles); try reflexivity. destruct (nth_error fs file) as [f|]; [|reflexivity].
   destruct (gen_file_traced o fuel (jf_name f) (jf_body f)) as [r tr]. cbn [fst]. apply replay_result.
+Qed.
+(* ... which is what the model returns *)
+Lemma js_fine_on_model o fuel file vf : js_fine_on o fuel file vf = js_on o fuel file vf.
+Proof.
+  unfold js_fine_on, js_on. destruct vf; try reflexivity. destruct (nth_error fs file) as [f|]; [|reflexivity].
+  now rewrite gen_file_traced_result.
 Qed.
 
 (* the fine-grained thread performs exactly the accesses the traced generator logged: one read of the
